@@ -120,7 +120,9 @@ class XtcePacketDefinition(common.AttrComparable):
                 _update_caches(sequence_container)
 
         self.ns = ns  # Default ns dict used when creating XML elements
-        self.xtce_schema_uri = ns[xtce_ns_prefix] if ns else None  # XTCE schema URI
+        # XTCE schema URI. A document without namespace awareness may still carry unrelated
+        # namespace declarations (e.g. xmlns:xsi), in which case there is no XTCE URI
+        self.xtce_schema_uri = ns.get(xtce_ns_prefix) if ns else None
         self.xtce_ns_prefix = xtce_ns_prefix
         self.root_container_name = root_container_name
         self.space_system_name = space_system_name
